@@ -67,7 +67,8 @@ def parseReg (cfg : Cfg) (npaths : Nat) (s : String) : Option RegIn :=
     -- register.go: `Registering.All` registers with methodUse
     let use := k == "U" || k == "G" || (k == "R" && ms == "-")
     pure { kind := k, reg := { methods := methods, use := use, raw := raw,
-                               key := treeKey maxDet (prettyPath cfg raw), handlers := handlers } }
+                               key := treeKey maxDet (prettyPath cfg raw), handlers := handlers,
+                               eo := joined.isEmpty } }
   | _ => none
 
 def parseCfg (s : String) : Option (Cfg × Bool) :=
